@@ -114,7 +114,8 @@ Inductive gval :=
                                         and outside the model: Repr would propagate that panic. *)
 | GPtr (elem : option string)        (* pointer that is no Stringer: None = typed nil pointer,
                                         Some t = points to a non-pointer value whose reprOfValue text is t *)
-| GVal (t : string).                 (* bool, ints, floats, string, []byte, struct value: text t *)
+| GVal (t : string).                 (* bool, ints, floats, string, []byte, struct value, map (fmt.Sprint prints a
+                                        map's entries in key order, so t is a function of the map's CONTENT): text t *)
 
 Definition repr (v : gval) : result string :=
   match v with
